@@ -156,6 +156,9 @@ TLC_JAVA = ["java", "-XX:+UseParallelGC", "-Xss64m", "-cp",
             "/opt/veriftools/tla/tla2tools.jar:/opt/veriftools/tla/CommunityModules-deps.jar", "tlc2.TLC"]
 
 
+# suffix of files being written (renamed when complete): unique per process, so that two checks running at once
+# never write the same temporary file
+TMP = ".tmp%d" % os.getpid()
 SHARD = int(os.environ.get("VERIF_SHARD", "100000"))
 SHARD_BYTES = 64 << 20
 
